@@ -1421,6 +1421,11 @@ class ParameterGrid(object):
         usefull when interpolation or gradient methods require an extra bin on
         each side of the grid.
         """
+        if self._grid.size == 0:
+            raise ValueError(
+                'The grid has no grid points, hence no extra lower and upper '
+                'bin can be added!')
+
         newgrid = np.empty((self._grid.size+2,))
         newgrid[1:-1] = self._grid
         newgrid[0] = newgrid[1] - self._delta
